@@ -87,7 +87,7 @@ func c17Conservation(c *Ctx, add *ssa.Function) {
 	ok := true
 	why := ""
 	// insert: key is r.Seq, unconditional
-	if !strings.HasSuffix(describeVal(in.Key), "r.Seq") && !flowsFrom(in.Key, func(v ssa.Value) bool { return describeVal(v) == "r.Seq" }) {
+	if !strings.HasSuffix(describeVal(in.Key), "arg0.Seq") && !flowsFrom(in.Key, func(v ssa.Value) bool { return describeVal(v) == "arg0.Seq" }) {
 		ok, why = false, "the point is buffered under something other than the result's sequence number"
 	}
 	if set := explore(add.Blocks[0].Instrs[0], true, func(i ssa.Instruction) bool { return i == ssa.Instruction(in) }); len(returnsIn(set)) > 0 {
@@ -162,7 +162,7 @@ func c17Conservation(c *Ctx, add *ssa.Function) {
 	eachInstr(add, func(i ssa.Instruction) {
 		if st, isSt := i.(*ssa.Store); isSt {
 			if fa, isFA := st.Addr.(*ssa.FieldAddr); isFA && fieldName(fa.X.Type(), fa.Field) == "began" && isNamedType(fa.X.Type(), "lib/plot", "labeledSeries") {
-				if describeVal(st.Val) == "r.Timestamp" {
+				if describeVal(st.Val) == "arg0.Timestamp" {
 					seq0, isExpected := false, false
 					for _, f := range factsAt(st.Block()) {
 						bo, isBo := f.Cond.(*ssa.BinOp)
@@ -225,7 +225,7 @@ func c17Units(c *Ctx, add *ssa.Function) {
 	eachInstr(add, func(i ssa.Instruction) {
 		if bo, ok := i.(*ssa.BinOp); ok && bo.Op == token.MUL {
 			if k, isK := bo.Y.(*ssa.Const); isK && k.Value != nil {
-				if f, _ := constant.Float64Val(constant.ToFloat(k.Value)); f == 1000 && describeVal(bo.X) == "(time.Duration).Seconds(r.Latency)" {
+				if f, _ := constant.Float64Val(constant.ToFloat(k.Value)); f == 1000 && describeVal(bo.X) == "(time.Duration).Seconds(arg0.Latency)" {
 					yOK = true
 				}
 			}
@@ -508,7 +508,7 @@ func c17Labeler(c *Ctx) {
 	}
 	ok := false
 	eachInstr(fn, func(i ssa.Instruction) {
-		if bo, isBo := i.(*ssa.BinOp); isBo && bo.Op == token.EQL && describeVal(bo.X) == "r.Error" {
+		if bo, isBo := i.(*ssa.BinOp); isBo && bo.Op == token.EQL && describeVal(bo.X) == "arg0.Error" {
 			if s, isS := constString(bo.Y); isS && s == "" {
 				if ifi := trueImpliesIf(bo); ifi != nil {
 					t, f := "", ""
